@@ -352,6 +352,29 @@ class SymDict(dict):
                 return v
         raise KeyError('symbolic key')
 
+    def get(self, k, default=None):
+        try:
+            return self[k]
+        except KeyError:
+            return default
+
+    def __contains__(self, k):
+        try:
+            self[k]
+            return True
+        except KeyError:
+            return False
+
+    def pop(self, k, *default):
+        if isinstance(k, (int, str)):
+            return dict.pop(self, k, *default)
+        for kk in list(self.keys()):
+            if kk == k:
+                return dict.pop(self, kk)
+        if default:
+            return default[0]
+        raise KeyError('symbolic key')
+
 
 class Env:
     """real Network (real constructor, real Settings, real EventBus) on a VLoop with fake streams"""
